@@ -731,6 +731,75 @@ func c15RequestDuringSlowTeardown() *sched.Scenario {
 		}}
 }
 
+// c15ServerCloseVsRefresh: the server is closed while a Refresh of a stream client is in flight: the listener's
+// goroutine closes the allocation manager (and with it the allocation) while the connection's goroutine still
+// handles the request. Once both are done nothing is left: in particular no lifetime timer re-armed by the Refresh
+// on the allocation that has been closed.
+func c15ServerCloseVsRefresh() *sched.Scenario {
+	return &sched.Scenario{Name: "c15-server-close-vs-refresh-of-a-stream-client", Bound: bound(), FreeBound: 3, Opt: opt,
+		Body: func(s *vsched.Sched) (func() []string, func()) {
+			w := sched.NewBW(sched.BCfg{Stream: true})
+			c := w.NewClient("c1")
+			vsched.Go("client", func() {
+				c.Do(wire.Allocate, udp)
+				vsched.Mark()
+				vsched.Go("closer", func() { _ = w.Srv.Close() })
+				c.Fire(wire.Refresh, lifetime(600))
+				vsched.IdleSleep(10 * time.Second)
+			})
+
+			return func() []string { return balance(w, s) }, func() { _ = w.Srv.Close() }
+		}}
+}
+
+// c15ServerCloseVsDialCompletion: the dial of a Connect completes at the very instant the server is closed (the
+// dial takes 1 s, the server is closed 1 s after the Connect was sent). Wherever the registration of the new peer
+// connection lands among the steps of the teardown, 3 s later the connection to the peer is closed and no
+// timer (the 30 s bind timer) is left.
+func c15ServerCloseVsDialCompletion() *sched.Scenario {
+	o := opt
+	o.IdleTies = true
+
+	return &sched.Scenario{Name: "c15-connect-dial-completes-while-the-server-closes", Bound: bound(), FreeBound: -1, Opt: o,
+		Body: func(s *vsched.Sched) (func() []string, func()) {
+			w := sched.NewBW(sched.BCfg{Stream: true, SlowDial: time.Second})
+			c := w.NewClient("c1")
+			pl, err := w.Net.ListenTCPAddr("tcp4", &net.TCPAddr{IP: vtx.PeerSpec["B"].IP, Port: 5000})
+			if err != nil {
+				panic(err)
+			}
+			var nt notes
+			vsched.Go("client", func() {
+				c.Do(wire.Allocate, tcp)
+				c.Fire(wire.Connect, peer("B"))
+				vsched.IdleSleep(time.Second)
+				vsched.Mark()
+				_ = w.Srv.Close()
+				vsched.IdleSleep(3 * time.Second)
+				open := 0
+				for {
+					pc := pl.Take()
+					if pc == nil {
+						break
+					}
+					if !pc.Peer().IsClosed() {
+						open++
+					}
+				}
+				nt.set("open", fmt.Sprint(open))
+			})
+
+			return func() []string {
+				out := balance(w, s)
+				if o := nt.get("open"); o != "0" {
+					out = append(out, "c15:peer-connection-open-after-server-close:"+o)
+				}
+
+				return out
+			}, nil
+		}}
+}
+
 // c15EqualDeadlines: allocation lifetime == permission timeout == channel
 // timeout: all timers fire at the same instant, in every order and interleaving.
 func c15EqualDeadlines() *sched.Scenario {
@@ -1228,5 +1297,5 @@ func TestC05Sched(t *testing.T) { run(t, "C05", c05StreamRelayVsResponse()) }
 func TestC04Sched(t *testing.T) { run(t, "C04", c04TwoConns(), c06Reconnect()) }
 func TestC16Sched(t *testing.T) { run(t, "C16", c16TwoBinds(), c16BindVsTimeout(), c16FullDuplex(), c16InboundVsRealloc()) }
 func TestC15Sched(t *testing.T) {
-	run(t, "C15", c15SlowCallback("alloc"), c15SlowCallback("perm"), c15SlowCallback("chan"), c15SlowCallbackReq("perm", "chanbind"), c15EqualDeadlines(), c15SlowDial("other"), c15SlowDial("own"), c15RequestDuringSlowTeardown())
+	run(t, "C15", c15SlowCallback("alloc"), c15SlowCallback("perm"), c15SlowCallback("chan"), c15SlowCallbackReq("perm", "chanbind"), c15EqualDeadlines(), c15SlowDial("other"), c15SlowDial("own"), c15RequestDuringSlowTeardown(), c15ServerCloseVsRefresh(), c15ServerCloseVsDialCompletion())
 }
